@@ -23,6 +23,11 @@ def gen_rows(rnd):
     n = rnd.randint(0, 14)
     g0pool = [1] if shape < 0.1 else ([1, 2, 3] if shape < 0.8 else list(range(20)))
     g1pool = ["x", "y"] if shape < 0.8 else ["x", "y", "z", "w", "1"]
+    # values that print alike under %v but are different keys ("1" vs 1, true vs "true", NULL vs "<nil>")
+    alike = rnd.random() < 0.25
+    if alike:
+        g0pool = [1, "1", 2, "2", True, "true"]
+        g1pool = ["x", "true", True, "<nil>", None, 1, "1"]
     rows = []
     for i in range(n):
         r = {}
@@ -32,7 +37,7 @@ def gen_rows(rnd):
         elif k < 0.13:
             pass
         else:
-            r["g0"] = rnd.choice(g0pool) if shape < 0.8 else i
+            r["g0"] = rnd.choice(g0pool) if (shape < 0.8 or alike) else i
         r["g1"] = rnd.choice(g1pool) if rnd.random() < 0.92 else None
         r["g2"] = rnd.random() < 0.5
         for v in ("v0", "v1"):
